@@ -451,6 +451,93 @@ func runExtendedHistory(x *runCtx, variant string, ctx int, choices []byte) outc
 	})
 }
 
+// runMultiplyHistory: the same histories one layer up, on whole multiplications (alpha*beta shared
+// additively).  Whatever a party keeps per setup OBJECT or per process (a cache, a precomputed table)
+// must not depend on what that party alone has seen:
+//
+//	abandoned - the Receiver opens a multiplication that the Sender never sees, then both multiply normally;
+//	reloaded  - after one multiplication only the Receiver's setup goes through MarshalBinary/UnmarshalBinary
+//	            (the Sender keeps its live object), then both multiply again; then the mirror image;
+//	interleaved - two multiplications are opened as A, B by the Receiver and answered as B, A by the Sender.
+func runMultiplyHistory(x *runCtx, variant string, ctx int) outcome {
+	return guard(func(o *outcome) {
+		var p setupPair
+		if so := runCorreSetup(x, 2000+ctx, &p); !so.Finished || !so.RelOK {
+			fail("S", fmt.Errorf("setup for the history failed: %+v", so))
+		}
+		a, b := big.NewInt(3), new(big.Int).Sub(ref.N, big.NewInt(2))
+		check := func(tA, tB curve.Scalar, what string) {
+			sum := new(big.Int).Add(bigFromScalar(tA), bigFromScalar(tB))
+			sum.Mod(sum, ref.N)
+			want := new(big.Int).Mul(a, b)
+			want.Mod(want, ref.N)
+			if sum.Cmp(want) != 0 && o.Rel == "" {
+				o.Rel = fmt.Sprintf("multiply after history %s (%s): tA+tB=%x, alpha*beta=%x", variant, what, sum, want)
+			}
+		}
+		open := func(pp setupPair, c int) (*ot.MultiplySender, *ot.MultiplyReceiver, *ot.MultiplyReceiveRound1Message) {
+			h := ctxHash("multiply-history", c)
+			x.useS()
+			sender := ot.NewMultiplySender(h.Clone(), pp.S, scalarFromBig(a))
+			x.useR()
+			receiver, err := ot.NewMultiplyReceiver(h.Clone(), pp.R, scalarFromBig(b))
+			if err != nil {
+				fail("R", err)
+			}
+			return sender, receiver, receiver.Round1()
+		}
+		finish := func(sender *ot.MultiplySender, receiver *ot.MultiplyReceiver, m *ot.MultiplyReceiveRound1Message, what string) {
+			x.useS()
+			ms, tA, err := sender.Round1(m)
+			if err != nil {
+				fail("S", fmt.Errorf("honest multiplication after history %q (%s): %w", variant, what, err))
+			}
+			x.useR()
+			tB, err := receiver.Round2(ms)
+			if err != nil {
+				fail("R", fmt.Errorf("honest multiplication after history %q (%s): %w", variant, what, err))
+			}
+			check(tA, tB, what)
+		}
+		one := func(pp setupPair, c int, what string) {
+			sd, rc, m := open(pp, c)
+			finish(sd, rc, m, what)
+		}
+		o.RelOK = true
+		defer func() {
+			if o.Rel != "" {
+				o.RelOK = false
+			}
+		}()
+		switch variant {
+		case "abandoned":
+			x.useR()
+			if r, err := ot.NewMultiplyReceiver(ctxHash("multiply-history", 100*ctx+1).Clone(), p.R, scalarFromBig(b)); err == nil {
+				_ = r.Round1() // never delivered
+			}
+			one(p, 100*ctx+2, "after an opened and abandoned multiplication")
+			one(p, 100*ctx+3, "second multiplication")
+		case "reloaded":
+			one(p, 100*ctx+4, "first")
+			bs, errS := p.S.MarshalBinary()
+			br, errR := p.R.MarshalBinary()
+			s2, r2 := new(ot.CorreOTSendSetup), new(ot.CorreOTReceiveSetup)
+			if errS != nil || errR != nil || s2.UnmarshalBinary(bs) != nil || r2.UnmarshalBinary(br) != nil {
+				fail("S", fmt.Errorf("setup does not round-trip through MarshalBinary/UnmarshalBinary"))
+			}
+			one(setupPair{p.S, r2}, 100*ctx+5, "only the Receiver reloaded")
+			one(setupPair{s2, p.R}, 100*ctx+6, "only the Sender reloaded")
+			one(setupPair{s2, r2}, 100*ctx+7, "both reloaded")
+		case "interleaved":
+			sA, rA, mA := open(p, 100*ctx+8)
+			sB, rB, mB := open(p, 100*ctx+9)
+			finish(sB, rB, mB, "B of A,B answered first")
+			finish(sA, rA, mA, "A of A,B answered second")
+		}
+		o.Finished = true
+	})
+}
+
 // ---- layer 5: additive OT -----------------------------------------------------------------------------
 
 func runAdditive(x *runCtx, base setupPair, ctx int, choices []byte, a0, a1 *big.Int) outcome {
